@@ -461,3 +461,155 @@ fn c09_overlapping_count() { c09_overlapping(true) }
 #[kani::stub(std::time::Instant::now, env::now_stub)]
 #[kani::stub(catch_unwind, env::catch_unwind_stub)]
 fn c09_overlapping_time() { c09_overlapping(false) }
+
+// ---------------------------------------------------------------------------
+// C03 / C20 — service-level wiring of CircuitBreaker::call and
+// CircuitBreakerWithFallback::call.  The Circuit operations are SCRIPTED here
+// (their behaviour is decided by the kernel harnesses above): try_acquire
+// answers whatever the harness chose; record_* only count.  What is decided is
+// the wiring for EVERY answer: a rejected call resolves at once with
+// OpenCircuit / the fallback's result and never touches the inner service; an
+// admitted call is forwarded exactly once, unchanged, to the instance that was
+// polled ready, its outcome is recorded exactly once and classified correctly,
+// and its result comes back unchanged.
+// ---------------------------------------------------------------------------
+struct Wire {
+    magic: [u64; 2],
+    permit: bool,
+    acquires: u32,
+    successes: u32,
+    failures: u32,
+    fallbacks: u32,
+    fallback_req: u32,
+}
+static mut WIRE: Wire = Wire { magic: [0x43425f574952455f, 0x4330335f43323021], permit: true, acquires: 0, successes: 0, failures: 0, fallbacks: 0, fallback_req: 0 };
+fn wire() -> &'static mut Wire {
+    unsafe { &mut *core::ptr::addr_of_mut!(WIRE) }
+}
+fn scripted_try_acquire<C>(_c: &mut Circuit, _cfg: &CircuitBreakerConfig<C>) -> bool {
+    wire().acquires += 1;
+    wire().permit
+}
+fn scripted_record_success<C>(_c: &mut Circuit, _cfg: &CircuitBreakerConfig<C>, _d: Duration) {
+    wire().successes += 1;
+}
+fn scripted_record_failure<C>(_c: &mut Circuit, _cfg: &CircuitBreakerConfig<C>, _d: Duration) {
+    wire().failures += 1;
+}
+
+use crate::classifier::DefaultClassifier;
+use crate::verif_kani::svc::{self as svcm, mon, Inner, InnerErr};
+use crate::{CircuitBreaker, CircuitBreakerError};
+use std::task::Poll;
+use tower::Service;
+
+fn wiring_cfg() -> CircuitBreakerConfig<DefaultClassifier> {
+    CircuitBreakerConfig {
+        failure_rate_threshold: 0.5,
+        sliding_window_type: SlidingWindowType::CountBased,
+        sliding_window_size: 2,
+        sliding_window_duration: None,
+        wait_duration_in_open: Duration::from_secs(1),
+        permitted_calls_in_half_open: 1,
+        minimum_number_of_calls: 2,
+        failure_classifier: DefaultClassifier,
+        slow_call_duration_threshold: None,
+        slow_call_rate_threshold: 1.0,
+        event_listeners: tower_resilience_core::EventListeners::new(),
+        name: String::new(),
+    }
+}
+
+fn cb_wiring(with_fallback: bool) {
+    tokio::model::st().mutex_avail = tokio::model::Avail::Any; // the breaker lock may be held by other callers
+    wire().permit = kani::any();
+    let mut script = svcm::any_script();
+    script.never = false;
+    script.immediate = true;
+    let cb = CircuitBreaker::new(Inner::new(script), Arc::new(wiring_cfg()));
+    let req: u32 = kani::any();
+    let mut out = None;
+    if with_fallback {
+        let mut f = cb.with_fallback(|r: u32| {
+            wire().fallbacks += 1;
+            wire().fallback_req = r;
+            Box::pin(async move { if r & 1 == 0 { Ok::<u32, InnerErr>(r ^ 0x7777) } else { Err(InnerErr(r ^ 0x1111)) } }) as futures::future::BoxFuture<'static, Result<u32, InnerErr>>
+        });
+        let _ = svcm::poll_ready_once(&mut f);
+        let mut fut = f.call(req);
+        let mut k = 0;
+        while k < 4 && out.is_none() {
+            if let Poll::Ready(r) = svcm::poll_once(fut.as_mut()) {
+                out = Some(r);
+            }
+            k += 1;
+        }
+        std::mem::forget(fut);
+        std::mem::forget(f);
+    } else {
+        let mut cb = cb;
+        let _ = svcm::poll_ready_once(&mut cb);
+        let mut fut = cb.call(req);
+        let mut k = 0;
+        while k < 4 && out.is_none() {
+            if let Poll::Ready(r) = svcm::poll_once(fut.as_mut()) {
+                out = Some(r);
+            }
+            k += 1;
+        }
+        std::mem::forget(fut);
+        std::mem::forget(cb);
+    }
+    let w = wire();
+    assert!(w.acquires <= 1, "[C03.one_admission_check] admission is decided once per call");
+    if w.acquires == 1 && !w.permit {
+        assert!(mon().calls == 0, "[C03.rejected_never_touches_inner] a call rejected by the breaker never reaches the wrapped service");
+        assert!(w.successes == 0 && w.failures == 0, "[C03.rejected_not_recorded] a rejected call records no outcome");
+    }
+    if let Some(r) = &out {
+        if !w.permit {
+            if with_fallback {
+                assert!(w.fallbacks == 1 && w.fallback_req == req, "[C03.fallback_runs] a rejected call is answered by the configured fallback, with the request");
+                match r {
+                    Ok(v) => assert!(req & 1 == 0 && *v == req ^ 0x7777, "[C03.fallback_result] the fallback's response is returned"),
+                    Err(CircuitBreakerError::Inner(InnerErr(e))) => assert!(req & 1 == 1 && *e == req ^ 0x1111, "[C03.fallback_result] the fallback's error is returned"),
+                    Err(CircuitBreakerError::OpenCircuit) => assert!(false, "[C03.fallback_result] with a fallback the open-circuit error is not surfaced"),
+                }
+            } else {
+                assert!(matches!(r, Err(CircuitBreakerError::OpenCircuit)), "[C03.open_circuit_error] a rejected call is answered with the open-circuit error");
+            }
+        } else {
+            assert!(mon().calls == 1 && mon().last_req == req, "[C20.circuitbreaker_forwards_once] an admitted call is forwarded exactly once, unchanged");
+            assert!(mon().unready_calls == 0, "[C20.circuitbreaker_ready_instance] the call goes to the instance on which readiness was observed");
+            assert!(w.fallbacks == 0, "[C03.fallback_only_when_rejected] the fallback runs only for rejected calls");
+            match (r, script.outcomes[0]) {
+                (Ok(v), Ok(x)) => assert!(*v == x && w.successes == 1 && w.failures == 0, "[C20.circuitbreaker_ok_unchanged] response unchanged, one success recorded"),
+                (Err(CircuitBreakerError::Inner(InnerErr(e))), Err(x)) => assert!(*e == x && w.failures == 1 && w.successes == 0, "[C20.circuitbreaker_err_unchanged] error unchanged in the Inner variant, one failure recorded"),
+                _ => assert!(false, "[C20.circuitbreaker_result_unchanged] the inner result is returned unchanged"),
+            }
+        }
+    } else {
+        // still pending after 4 polls: only possible while waiting for the breaker lock
+        assert!(mon().live == 0, "[C03.pending_only_for_lock] with an immediate inner call the breaker call is pending only while it waits for the lock");
+    }
+    kani::cover!(matches!(out, Some(Err(CircuitBreakerError::OpenCircuit))), "open-circuit rejection");
+    kani::cover!(matches!(out, Some(Ok(_))), "success");
+}
+
+#[kani::proof]
+#[kani::unwind(6)]
+#[kani::stub(std::time::Instant::now, tokio::model::std_instant_now)]
+#[kani::stub(catch_unwind, env::catch_unwind_stub)]
+#[kani::stub(Circuit::try_acquire, scripted_try_acquire)]
+#[kani::stub(Circuit::record_success, scripted_record_success)]
+#[kani::stub(Circuit::record_failure, scripted_record_failure)]
+fn c03_call_wiring() { cb_wiring(false) }
+
+#[kani::proof]
+#[kani::unwind(6)]
+#[kani::stub(std::time::Instant::now, tokio::model::std_instant_now)]
+#[kani::stub(catch_unwind, env::catch_unwind_stub)]
+#[kani::stub(Circuit::try_acquire, scripted_try_acquire)]
+#[kani::stub(Circuit::record_success, scripted_record_success)]
+#[kani::stub(Circuit::record_failure, scripted_record_failure)]
+fn c03_call_wiring_with_fallback() { cb_wiring(true) }
